@@ -30,11 +30,29 @@ def Cell.pyEq : Cell → Cell → Bool
     | some x, some y => x == y
     | _, _ => false
 
-/-- `d.get(x, len(d))` for `d = dict(zip(vals, range(len(vals))))`, `vals` without repeats -/
+/-- keep the first of every `==`-class (the keys of `dict(zip(vals, ...))`) -/
+def dedupPy : List Cell → List Cell
+  | [] => []
+  | v :: vs => v :: (dedupPy vs).filter (fun w => !(v.pyEq w))
+
+/-- last position (counted from `k`) of a value `==` to `x` -/
+def lastIdxFrom (k : Nat) : List Cell → Cell → Option Nat
+  | [], _ => Option.none
+  | v :: vs, x =>
+    match lastIdxFrom (k + 1) vs x with
+    | some j => some j
+    | Option.none => if v.pyEq x then some k else Option.none
+
+def lastIdx? (vals : List Cell) (x : Cell) : Option Nat := lastIdxFrom 0 vals x
+
+/-- `d.get(x, len(d))` for `d = dict(zip(vals, range(len(vals))))` (src/pyg_base/_dictable.py:857-858): a repeated listed
+value keeps its LAST position (later `dict` entries overwrite earlier ones) and an unlisted value gets `len(d)`, the number
+of distinct listed values.  (Keys are compared with python `==`/hash: `1`, `1.0` and `True` are one key; NaN keys are found
+by identity only and are not modelled.) -/
 def byvalRank (vals : List Cell) (x : Cell) : Nat :=
-  match vals.findIdx? (fun v => v.pyEq x) with
+  match lastIdx? vals x with
   | some i => i
-  | Option.none => vals.length
+  | Option.none => (dedupPy vals).length
 
 /-- sort keys of `dictable.sort(**byval)`: one rank per listed column -/
 def byvalKey (orders : List (List Cell)) (row : List Cell) : Val :=
